@@ -92,13 +92,13 @@ def run(ctx, rep, tier):
     n_fam = 0
     t0 = time.process_time()
     budget = (900 if tier == "quick" else 9000) * float(os.environ.get("VERIF_BUDGET_SCALE", "1"))
-    fams = list(families(tier, ("octal", "digits", "words"))) + list(families(tier, ("any", "kwarg")))
+    fams = list(families(tier, ("octal", "digits", "words"))) + list(families(tier, ("any", "kwarg"))) + list(families(tier, ("long",)))
     for name, spec, assume in fams:
         if time.process_time() - t0 > budget:
             rep.coverage["truncated_at_family"] = name
             break
         profiles = ("dev", "rel")
-        if tier == "quick" and (("+" in name and not name.endswith("d") and "unit" not in name and name[0] == "-") or name in ("any4",)):
+        if name.startswith("long") or (tier == "quick" and (("+" in name and not name.endswith("d") and "unit" not in name and name[0] == "-") or name in ("any4",))):
             profiles = ("dev",)          # keyword + arbitrary argument: the profiles differ only in arithmetic and cfg arms
         for profile in profiles:
             r, panics, n_ok, n_err = explore(B, spec, assume, profile)
